@@ -9,6 +9,7 @@ package virtual
 
 import (
 	"context"
+	"sort"
 
 	"github.com/buildbarn/bb-storage/pkg/filesystem"
 	"github.com/buildbarn/bb-storage/pkg/filesystem/path"
@@ -110,5 +111,47 @@ func verifC13_listingWaitsForBusyChild() {
 		rt.Assert(seen["d"] <= 1 && seen["z"] <= 1, "a renamed entry is reported at most once under each of its names")
 	} else {
 		rt.Assert(seen["d"] == 1 && seen["z"] == 0, "an entry that existed throughout the listing is reported exactly once")
+	}
+}
+
+// Case-insensitive directories: names differing only in case denote the same
+// entry, but what counts as a hidden file (ignored by the emptiness test of
+// rmdir) is decided on the name the entry really has, exactly as listings do:
+// a directory never disappears while a listing still shows a file in it.
+func verifHarness_C13_CaseInsensitiveNames() {
+	rt.MustCover("ci:not-empty", "ci:only-hidden", "ci:same-entry")
+	ctx := context.Background()
+	env := &verifC13_env{}
+	hidden := func(s string) bool { return len(s) >= 2 && s[:2] == ".h" } // case-sensitive pattern
+	root := NewInMemoryPrepopulatedDirectory(env, env, env, verifC13_handleAllocator{env}, sort.Sort, hidden,
+		verifC13_clock{}, CaseInsensitiveComponentNormalizer, func(AttributesMask, *Attributes) {}, NoNamedAttributesFactory).(*inMemoryPrepopulatedDirectory)
+	var out Attributes
+	_, _, st := root.VirtualMkdir(ctx, path.MustNewComponent("d"), &Attributes{}, 0, &out)
+	rt.Assert(st == StatusOK, "mkdir d")
+	child, st := root.VirtualLookup(ctx, path.MustNewComponent("D"), 0, &out)
+	rt.Assert(st == StatusOK, "a name differing only in case finds the same entry")
+	rt.Cover("ci:same-entry")
+	dd, _ := child.GetPair()
+	d := dd.(*inMemoryPrepopulatedDirectory)
+	name := []string{".hx", ".Hx", "x"}[rt.Choose(3)]
+	in := (&Attributes{}).SetFileType(filesystem.FileTypeFIFO)
+	_, _, st = d.VirtualMknod(ctx, path.MustNewComponent(name), in, 0, &out)
+	rt.Assert(st == StatusOK, "mknod in d")
+	second := []string{".HX", ".hX", "X"}[rt.Choose(3)]
+	_, _, st = d.VirtualMknod(ctx, path.MustNewComponent(second), in, 0, &out)
+	if (len(second) == 1) == (len(name) == 1) {
+		rt.Assert(st == StatusErrExist, "a second name differing only in case is the same entry")
+	} else {
+		rt.Assert(st == StatusOK, "a name that differs in more than case is a new entry")
+	}
+	listing := &verifC13_reporter{}
+	d.VirtualReadDir(ctx, 0, 0, listing)
+	_, st = root.VirtualRemove(ctx, path.MustNewComponent("d"), true, false)
+	if len(listing.names) > 0 {
+		rt.Assert(st == StatusErrNotEmpty, "a directory whose listing shows an entry is not removed by rmdir")
+		rt.Cover("ci:not-empty")
+	} else {
+		rt.Assert(st == StatusOK, "a directory holding only hidden files counts as empty")
+		rt.Cover("ci:only-hidden")
 	}
 }
